@@ -36,12 +36,21 @@ TRUSTED = ['closed-form proximal/gradient maps (PSpec) written in tools/harness/
            'the modelled functional zoo (each is itself compared with the real proximal through '
            'the iterate sequences)',
            'NumPy/BLAS entry-wise arithmetic and lincomb (C01) as exact entry-wise maps']
-ASSUMPTIONS = ['floating-point rounding is outside the model: comparison is exact when every '
-               'model value is a dyadic rational of <= 44 significant bits, else relative 1e-9',
+ASSUMPTIONS = ['floating-point rounding is outside the model: comparison is exact when the inputs are '
+               'short dyadic rationals (see solverlib.line_exact), else relative 1e-9 per iterate',
                'operators, proximals and gradients are parameters of the model: aliasing '
                'behaviour inside them (out is x) is C10, their values are C07/C05',
-               'random orders (random=True), accelerated PDHG (gamma_primal/gamma_dual), '
-               'callable lam and line searches with memory are excluded from the resume claim']
+               'BY CONSTRUCTION: the resume_* theorems and callback_once hold because the state '
+               'machines have no hidden state / because the driver loop runLog appends once per step; '
+               'that the CODE has no hidden state (objects surviving between calls, rebinding instead '
+               'of in-place update) rests on the split-run oracle (all splits n = a + b for n <= 8) and '
+               'on the tie of resumed and half-resumed calls',
+               'adupdates_refines is conditional on hoisted proximal = per-iteration proximal '
+               '(hypothesis hprox; discharged on the code only by the optimised-vs-simple oracle)',
+               'random orders (random=True), accelerated PDHG (gamma_primal/gamma_dual), callable '
+               'lam and line searches with memory (estimate_step=True with a fresh object) are '
+               'excluded from the resume claim; weighted spaces only with equal constant weights '
+               'on both sides and cell volumes of 1-d grids; no complex spaces']
 
 
 # ---------------------------------------------------------------------------
@@ -425,33 +434,52 @@ def proj_pair(r):
 def resume_oracle(ctx, p, n, runner, what, obs_names=('x',)):
     """runner(state0, k) -> (status, log, state_k); state is a tuple of flat arrays."""
     r = random.Random(p['cseed'] ^ 0x5EED)
-    a, b = split_n(r, n)
     st, log, full = runner(None, n)
     if st != 'ok':
         ctx.err(err_kind(st))
         return st, log, full
-    st1, log1, mid = runner(None, a)
-    st2, log2, end = runner(mid, b)
+    # ALL splittings n = a + b of short runs, three random ones of long runs
+    splits = range(n + 1) if n <= 8 else sorted({0, n, r.randint(1, n - 1), r.randint(1, n - 1)})
     key = '{} resume {}+{} opkind={} f={} g={}'.format(what, 'n', 'm', p.get('opkind'),
                                                        p.get('fk'), p.get('gk'))
-    if st1 != 'ok' or st2 != 'ok':
-        viol(ctx, key, 'split run {}+{} failed ({}, {}) but the unsplit run succeeded'.format(
-            a, b, st1, st2), p, n=n, split=[a, b])
-        return st, log, full
-    for name, u, v in zip(obs_names, end, full):
-        d = sl.arrays_differ([u], [v])
-        if d:
-            viol(ctx, key, '{} after {}+{} iterations differs from {} iterations: {}'.format(
-                name, a, b, n, d), p, n=n, split=[a, b])
+    for a in splits:
+        b = n - a
+        st1, log1, mid = runner(None, a)
+        st2, log2, end = runner(mid, b)
+        ctx.hit('oracle/resume-splits')
+        if st1 != 'ok' or st2 != 'ok':
+            viol(ctx, key, 'split run {}+{} failed ({}, {}) but the unsplit run succeeded'.format(
+                a, b, st1, st2), p, n=n, split=[a, b])
+            return st, log, full
+        bad = False
+        for name, u, v in zip(obs_names, end, full):
+            d = sl.arrays_differ([u], [v])
+            if d:
+                viol(ctx, key, '{} after {}+{} iterations differs from {} iterations: {}'.format(
+                    name, a, b, n, d), p, n=n, split=[a, b])
+                bad = True
+                break
+        d = sl.arrays_differ(list(log1) + list(log2), log)
+        if d and not bad:
+            viol(ctx, key, 'callback iterates of the split run {}+{} differ: {}'.format(a, b, d), p,
+                 n=n, split=[a, b])
+            bad = True
+        if bad:
             break
-    d = sl.arrays_differ(list(log1) + list(log2), log)
-    if d:
-        viol(ctx, key, 'callback iterates of the split run differ: ' + d, p, n=n, split=[a, b])
     return st, log, full
 
 
 def gen_landweber(r, exact, opaque=False):
     kind, A = sl.operator_zoo(r)
+    if kind == 'matrix' and r.random() < 0.4:
+        import odl
+        kind, A = 'matrix*square', A * odl.PowerOperator(A.domain, 2)   # non-linear: derivative at x
+        # x -> x^2 blows up doubly exponentially: small data, small relaxation, few iterations
+        rhs = sl.dy_vec(r, size_of(A.range), 8, 8)
+        x0 = sl.dy_vec(r, size_of(A.domain), 8, 8)
+        proj, pspec = proj_pair(r)
+        return dict(solver='landweber', opkind=kind, L=A, rhs=rhs, x0=x0, proj=proj, pspec=pspec,
+                    omega=r.choice([0.03125, 0.015625]), fk=pspec, gk='-', nmax=3)
     rhs = sl.dy_vec(r, size_of(A.range), 16, 8)
     x0 = sl.dy_vec(r, size_of(A.domain), 16, 8)
     proj, pspec = proj_pair(r)
@@ -467,6 +495,7 @@ def family_landweber(ctx, r, exact, n, opaque=False):
     from odl.solvers import landweber
     p = gen_landweber(r, exact, opaque)
     p.update(cseed=r.cseed, exact=exact, opaque=opaque)
+    n = min(n, p.get('nmax', n))
     A = p['L']
 
     def runner(state, k):
@@ -480,9 +509,12 @@ def family_landweber(ctx, r, exact, n, opaque=False):
         check_callback(ctx, p, n, log, full[0], 'landweber')
     sig = ('model', 'landweber', p['opkind'], p['pspec'], steps_class(exact), n)
     nt = st == 'ok' and nontrivial(log, p['x0'])
-    M, Mt = wire_op(A)
-    line = 'landweber A={} At={} rhs={} omega={} proj={} x0={} n={}'.format(
-        fmat(M), fmat(Mt), fl(p['rhs']), fs(p['omega']), p['pspec'], fl(p['x0']), n)
+    nl = p['opkind'] == 'matrix*square'
+    M, Mt = wire_op(A.left if nl else A)
+    line = 'landweber A={} At={} rhs={} omega={} proj={} x0={} n={}{}'.format(
+        fmat(M), fmat(Mt), fl(p['rhs']), fs(p['omega']), p['pspec'], fl(p['x0']), n,
+        ' sq=1' if nl else '')
+    ctx.hit('model/landweber/' + ('nonlinear-op' if nl else 'linear-op'))
     ctx.hit('model/landweber/proj=' + p['pspec'].split(':')[0])
     return [Case(desc_of(p, n=n), sig if nt else None, line, st, log)]
 
@@ -603,11 +635,16 @@ def gen_osmlem(r, exact, opaque=False):
            for _ in range(m)]
     data = [np.abs(sl.dy_vec(r, size_of(o.range), 16, 4)) for o in ops]
     x0 = np.abs(sl.dy_vec(r, d, 16, 8)) + r.choice([0.0, 0.125])
-    sens = None
-    if r.random() < 0.4:
-        sens = [np.abs(sl.dy_vec(r, d, 8, 4)) + 0.25 for _ in range(m)]
+    sens, sens_form = None, 'default'
+    c = r.random()
+    if c < 0.3:
+        sens, sens_form = [np.abs(sl.dy_vec(r, d, 8, 4)) + 0.25 for _ in range(m)], 'list'
+    elif c < 0.5:      # ONE domain element for all subsets (docstring: "float or domain element-like")
+        sens, sens_form = [np.abs(sl.dy_vec(r, d, 8, 4)) + 0.25] * m, 'element'
+    elif c < 0.6:
+        sens, sens_form = [np.full(d, r.choice([0.5, 2.0, 1.25]))] * m, 'float'
     return dict(solver='osmlem', opkind='x'.join(str(size_of(o.range)) for o in ops), ops=ops,
-                data=data, x0=x0, sens=sens, m=m, fk='sens' if sens else 'default', gk='-',
+                data=data, x0=x0, sens=sens, sens_form=sens_form, m=m, fk=sens_form, gk='-',
                 use_mlem=(m == 1 and r.random() < 0.5))
 
 
@@ -624,12 +661,15 @@ def family_osmlem(ctx, r, exact, n, opaque=False):
         x = unflat(dom, p['x0'] if state is None else state[0])
         rec = Recorder()
         kw = {}
-        if p['sens'] is not None:
+        if p['sens_form'] == 'list':
             kw['sensitivities'] = [unflat(dom, s) for s in p['sens']]
+        elif p['sens_form'] == 'element':
+            kw['sensitivities'] = unflat(dom, p['sens'][0])
+        elif p['sens_form'] == 'float':
+            kw['sensitivities'] = float(p['sens'][0][0])
+        if p['use_mlem'] and p['sens_form'] == 'list':
+            kw['sensitivities'] = kw['sensitivities'][:1]
         if p['use_mlem']:
-            # NB (observation, outside C11): passing a single domain element here, as the
-            # docstring allows, makes osmlem take `list(element)` and divide by its first
-            # ENTRY; a one-element list gives the documented behaviour.
             st, _ = guarded(mlem, ops[0], x, unflat(ops[0].range, p['data'][0]), k,
                             callback=rec, **kw)
         else:
@@ -660,6 +700,7 @@ def family_osmlem(ctx, r, exact, n, opaque=False):
         for i in range(p['m']))
     line = 'osmlem m={} {} eps={} x0={} n={}'.format(p['m'], fields, fs(eps), fl(p['x0']), n)
     ctx.hit('model/' + what)
+    ctx.hit('model/osmlem/sensitivities=' + p['sens_form'])
     return [Case(desc_of(p, n=n, mlem=p['use_mlem']), sig if nt else None, line, st, log)]
 
 
@@ -719,6 +760,15 @@ def family_steepest(ctx, r, exact, n, opaque=False):
 
 def gen_pdhg(r, exact, opaque=False):
     kind, L = sl.operator_zoo(r)
+    if kind == 'matrix' and not opaque and r.random() < 0.3:
+        import odl
+        kind, L = 'matrix*square', L * odl.PowerOperator(L.domain, 2)   # L.derivative(x).adjoint at the OLD x
+        F = sl.functional_zoo(r, L.domain, exact=exact)
+        G = sl.functional_zoo(r, L.range, exact=exact)
+        return dict(solver='pdhg', opkind=kind, L=L, f=F.f, g=G.f, F=F, G=G, fk=F.name, gk=G.name,
+                    tau=r.choice([0.0625, 0.03125]), sigma=r.choice([0.0625, 0.125]),
+                    theta=r.choice([None, 1.0, 0.5, 0.0]), x0=sl.dy_vec(r, size_of(L.domain), 8, 8),
+                    nmax=4)
     if opaque:
         fk, f = sl.opaque_functional_zoo(r, L.domain)
         gk, g = sl.opaque_functional_zoo(r, L.range)
@@ -739,6 +789,7 @@ def family_pdhg(ctx, r, exact, n, opaque=False):
     from odl.solvers import pdhg
     p = gen_pdhg(r, exact, opaque)
     p.update(cseed=r.cseed, exact=exact, opaque=opaque)
+    n = min(n, p.get('nmax', n))
     L = p['L']
     kw = {} if p['theta'] is None else {'theta': p['theta']}
     theta = 1.0 if p['theta'] is None else p['theta']
@@ -773,10 +824,12 @@ def family_pdhg(ctx, r, exact, n, opaque=False):
         ctx.case(sig if nt else None)
         ctx.hit('oracle/pdhg')
         return []
-    A, At = wire_op(L)
-    base = 'pdhg A={} At={} pf={} pgc={} tau={} sigma={} theta={}'.format(
+    nl = p['opkind'] == 'matrix*square'
+    A, At = wire_op(L.left if nl else L)
+    base = 'pdhg A={} At={} pf={} pgc={} tau={} sigma={} theta={}{}'.format(
         fmat(A), fmat(At), p['F'].prox(p['tau']), p['G'].cprox(p['sigma']), fs(p['tau']),
-        fs(p['sigma']), fs(theta))
+        fs(p['sigma']), fs(theta), ' sq=1' if nl else '')
+    ctx.hit('model/pdhg/' + ('nonlinear-op' if nl else 'linear-op'))
     cases = [Case(desc_of(p, n=n), sig if nt else None,
                   base + ' x0={} n={}'.format(fl(p['x0']), n), st, log,
                   {'x': full[0], 'xr': full[1], 'y': full[2]} if st == 'ok' else {})]
@@ -791,7 +844,75 @@ def family_pdhg(ctx, r, exact, n, opaque=False):
                                   fl(mid[0]), fl(mid[1]), fl(mid[2]), n - a), st2, log2,
                               {'x': end[0], 'xr': end[1], 'y': end[2]} if st2 == 'ok' else {}))
             ctx.hit('model/pdhg/resumed')
+            # only ONE of the two resumption objects passed back (the other re-initialised)
+            for which in ('xr', 'y'):
+                x = unflat(L.domain, mid[0])
+                kw2 = dict(kw)
+                if which == 'xr':
+                    kw2['x_relax'] = unflat(L.domain, mid[1])
+                else:
+                    kw2['y'] = unflat(L.range, mid[2])
+                rec = Recorder()
+                st3, _ = guarded(pdhg, x, p['f'], p['g'], L, n - a, tau=p['tau'], sigma=p['sigma'],
+                                 callback=rec, **kw2)
+                cases.append(Case(desc_of(p, n=n - a, resumed_after=a, only=which),
+                                  sig + ('half-resumed', which) if nt else None,
+                                  base + ' x0={} {}={} n={}'.format(
+                                      fl(mid[0]), which, fl(mid[1] if which == 'xr' else mid[2]), n - a),
+                                  st3, rec.iterates, {'x': flat(x).copy()} if st3 == 'ok' else {}))
+                ctx.hit('model/pdhg/half-resumed(' + which + ')')
     return cases
+
+
+def family_steepest_ls(ctx, r, exact, n, opaque=False):
+    """steepest_descent with ONE BacktrackingLineSearch object shared by the split calls.
+    estimate_step=False: the object carries no state that matters -> n then m = n+m exactly.
+    estimate_step=True: `alpha` survives in the object (documented exclusion 'line searches with
+    memory'): with the SAME object passed to both calls resumption still holds; a fresh object
+    for the second call may differ (recorded, not a violation)."""
+    import odl
+    from odl.solvers import steepest_descent, BacktrackingLineSearch
+    d = r.randint(1, 3)
+    M = sl.small_int_matrix(r, r.randint(1, 3), d)
+    b = sl.dy_vec(r, M.shape[0], 8, 4)
+    Mop = odl.MatrixOperator(M)
+    f = odl.solvers.L2NormSquared(Mop.range).translated(b) * Mop
+    x0 = sl.dy_vec(r, d, 16, 8)
+    est = r.random() < 0.5
+    tau, disc = r.choice([0.5, 0.25, 0.75]), r.choice([0.01, 0.3, 0.1])
+    n = r.randint(2, 8)
+    p = dict(solver='steepest_ls', opkind='lsq{}x{}'.format(M.shape[0], d), x0=x0, fk='estimate_step' if est
+             else 'stateless', gk='-', cseed=r.cseed, exact=exact, opaque=opaque)
+
+    def run(k, x_start, ls):
+        x = unflat(f.domain, x_start)
+        rec = Recorder()
+        st, _ = guarded(steepest_descent, f, x, line_search=ls, maxiter=k, tol=1e-16, callback=rec)
+        return st, rec.iterates, flat(x).copy()
+
+    def mk():
+        return BacktrackingLineSearch(f, tau=tau, discount=disc, max_num_iter=40, estimate_step=est)
+    st, log, full = run(n, x0, mk())
+    if st == 'ok':
+        for a in range(n + 1):
+            ls = mk()
+            st1, log1, mid = run(a, x0, ls)
+            st2, log2, end = run(n - a, mid, ls)            # the SAME object is passed on
+            if st1 != 'ok' or st2 != 'ok':
+                continue    # refusal at float-level convergence (see C12)
+            d_ = sl.arrays_differ(list(log1) + list(log2), log)
+            if d_:
+                viol(ctx, 'steepest_descent(BacktrackingLineSearch estimate_step={}) resume with the '
+                     'line-search object passed on'.format(est),
+                     '{}+{} iterations differ from {}: {}'.format(a, n - a, n, d_), p, n=n, split=[a, n - a])
+                break
+            if est:
+                st3, log3, end3 = run(n - a, mid, mk())     # fresh object: excluded class
+                ctx.hit('excluded/line search with memory, fresh object: ' +
+                        ('differs' if st3 != 'ok' or sl.arrays_differ([end3], [full]) else 'same'))
+    ctx.case(('oracle', 'steepest_ls', p['opkind'], est, n) if st == 'ok' else None)
+    ctx.hit('oracle/steepest_descent+BacktrackingLineSearch resume/' + p['fk'])
+    return []
 
 
 FAMILIES = {
@@ -804,7 +925,23 @@ FAMILIES = {
     'osmlem': family_osmlem,
     'steepest': family_steepest,
     'pdhg': family_pdhg,
+    'steepest_ls': family_steepest_ls,
 }
+EXPECTED_BRANCHES = [
+    'model/admm/opt', 'model/admm/simple', 'model/adupdates/inner', 'model/adupdates/outer',
+    'model/adupdates/simple', 'adupdates/inner=pointwise', 'adupdates/inner=scalar',
+    'model/dpdc/opt', 'model/dpdc/simple', 'model/landweber/linear-op', 'model/landweber/nonlinear-op',
+    'model/landweber/proj=none', 'model/landweber/proj=lower', 'model/landweber/proj=clamp',
+    'model/kaczmarz/inner', 'model/kaczmarz/outer', 'model/proxgrad', 'model/mlem', 'model/osmlem',
+    'model/osmlem/sensitivities=default', 'model/osmlem/sensitivities=element',
+    'model/osmlem/sensitivities=float', 'model/osmlem/sensitivities=list',
+    'model/steepest/full', 'model/steepest/stopped-early',           # SteepestP.step: tolerance return
+    'model/pdhg/fresh', 'model/pdhg/resumed', 'model/pdhg/half-resumed(xr)',
+    'model/pdhg/half-resumed(y)', 'model/pdhg/linear-op', 'model/pdhg/nonlinear-op',
+    'compare/exact', 'compare/tolerance', 'oracle/resume-splits',
+    'oracle/steepest_descent+BacktrackingLineSearch resume/stateless',
+    'oracle/steepest_descent+BacktrackingLineSearch resume/estimate_step',
+]
 OPAQUE_FAMILIES = ('admm', 'adupdates', 'dpdc', 'proxgrad', 'pdhg')
 
 
